@@ -224,8 +224,6 @@ def filter_failures(seed, n_samples=300):
     res = filters.run_feedback_filter(initial, 10, 2, 1.0, 5.0, increments, gyro_model, accel_model,
                                       measurements=[pos, vel], time_step=0.5, with_altitude=False)
     tr = res.trajectory
-    if len(tr) != len(increments) + 1:
-        fails.append((f"feedback filter trajectory has {len(tr)} rows for {len(increments)} increments", rec))
     if not np.all(tr['VD'].values == 0.0):
         bad = np.flatnonzero(tr['VD'].values != 0.0)
         fails.append((f"feedback filter (2D): vertical velocity not exactly zero at rows {bad[:5].tolist()}: "
